@@ -44,6 +44,26 @@ def check_case(case):
                                 ht, idx, len(m['vin']), len(m['vout']), amount, m['locktime'], r[1].hex(), want.hex()))
     if tx.serialize() != before or (tx.GetTxid(), tx.GetHash()) != ids:
         raise Violation('mutated/tx', 'BIP143 hashing changed the transaction it was given')
+    if case['mutable']:
+        # the digest follows in-place edits of the SAME transaction object (hash, edit, hash again)
+        m2 = dict(m, vin=list(m['vin']), vout=list(m['vout']))
+        for ed in case.get('edits', ['locktime', 'seq', 'value', 'prevout', 'version']):
+            if ed == 'locktime':
+                m2['locktime'] ^= 1; tx.nLockTime = m2['locktime']
+            elif ed == 'version':
+                m2['version'] = (m2['version'] + 1) if m2['version'] < 2 ** 31 - 1 else 0; tx.nVersion = m2['version']
+            elif ed == 'seq':
+                j = (idx + 1) % len(m2['vin']); h_, n_, s_, q_ = m2['vin'][j]; m2['vin'][j] = (h_, n_, s_, q_ ^ 1); tx.vin[j].nSequence = q_ ^ 1
+            elif ed == 'prevout':
+                j = (idx + 1) % len(m2['vin']); h_, n_, s_, q_ = m2['vin'][j]; m2['vin'][j] = (h_, n_ ^ 1, s_, q_); tx.vin[j].prevout.n = n_ ^ 1
+            elif ed == 'value' and m2['vout']:
+                v_, s_ = m2['vout'][-1]; m2['vout'][-1] = (v_ ^ 1, s_); tx.vout[-1].nValue = v_ ^ 1
+            for ht in (1, 2, 3, 0x81, 0x82, 0x83):
+                want = RS.bip143(sc, m2, idx, ht, amount)
+                got = libx.call('bip143-after-edit', SignatureHash, csc, tx, idx, ht, amount=amount, sigversion=SIGVERSION_WITNESS_V0)[1]
+                if got != want:
+                    raise Violation('digest-stale-after-edit/%s' % ed, 'after editing %s of the same CMutableTransaction the BIP143 digest (ht=0x%02x) is '
+                                    'not the digest of the current fields' % (ed, ht))
     big = m['locktime'] >= 2 ** 31 or any(i[3] >= 2 ** 31 or i[1] >= 2 ** 31 for i in m['vin']) or amount >= 2 ** 31
     cls = ['locktime>=2^31'] if m['locktime'] >= 2 ** 31 else []
     if idx >= len(m['vout']):
